@@ -148,7 +148,21 @@ func (g *gen) genStage() {
 	nin := 1 + g.pick(g.cfg.MaxParams)
 	for i := 0; i < nin; i++ {
 		var t Ty
-		if len(g.outTypes) > 0 && g.pick(3) > 0 {
+		var fileOuts []Ty
+		if g.cfg.Files {
+			for _, ot := range g.outTypes {
+				if g.p.IsFileType(ot.Base) {
+					fileOuts = append(fileOuts, ot)
+				}
+			}
+		}
+		if len(fileOuts) > 0 && g.pick(3) == 0 {
+			// consume a file produced upstream (keeps it alive for VDR)
+			t = fileOuts[g.pick(len(fileOuts))]
+			if t.Dims != "" && g.pick(2) == 0 {
+				t = t.Elem()
+			}
+		} else if len(g.outTypes) > 0 && g.pick(3) > 0 {
 			t = g.outTypes[g.pick(len(g.outTypes))]
 			// consume an element of an upstream collection (enables map calls)
 			if t.Dims != "" && g.pick(2) == 0 {
@@ -197,7 +211,7 @@ func (g *gen) genStage() {
 			s.Volatile = "false"
 		}
 	}
-	if g.cfg.Retain && g.cfg.Files && g.pick(4) == 0 {
+	if g.cfg.Retain && g.cfg.Files && g.pick(2) == 0 {
 		for _, o := range s.Outs {
 			if g.p.IsFileType(o.T.Base) {
 				s.Retain = append(s.Retain, o.Name)
@@ -581,6 +595,21 @@ func (g *gen) genPipeline(last bool) {
 		name := fmt.Sprintf("r%d", i)
 		pl.Outs = append(pl.Outs, Field{name, t})
 		pl.Ret = append(pl.Ret, Bind{name, e, false})
+	}
+	// pipeline-level retain of file outputs of stage calls
+	if g.cfg.Retain && g.cfg.Files {
+		for _, c := range pl.Calls {
+			st := g.p.Stage(c.Callee)
+			if st == nil || g.pick(3) != 0 {
+				continue
+			}
+			for _, o := range st.Outs {
+				if g.p.IsFileType(o.T.Base) {
+					pl.Retain = append(pl.Retain, &Expr{Kind: ERef, Call: c.Id, Path: []string{o.Name}})
+					break
+				}
+			}
+		}
 	}
 	// MRO rejects pipeline inputs that nothing uses.
 	usedIns := map[string]bool{}
